@@ -57,6 +57,9 @@ class StepLimit(Exception):
     pass
 
 
+MAX_LIST = 5000
+
+
 class Env:
     def __init__(self, parent=None):
         self.vars = {}
@@ -423,6 +426,8 @@ class Interp:
         if op == "++":
             if not (isinstance(a, list) and isinstance(b, list)):
                 self.err()
+            if len(a) + len(b) > MAX_LIST:
+                raise StepLimit()     # a list doubled in nested loops: resource, not semantics (the case is discarded)
             return a + b
         raise ValueError(op)
 
